@@ -166,3 +166,9 @@ Lemma counters p s : reachable p s ->
   s_outNotifs s = notif_count s /\ s_incoming s = in_flight s /\
   s_handlerRunning s = match s_handler s with HNone => false | _ => true end.
 Proof. intros R. destruct (inv_N _ (reachable_inv _ _ R)); auto. Qed.
+
+(* the specialisations of no_panic named in the design *)
+Lemma retire_at_most_once p s l : reachable p s -> step s l <> Panic PRetireTwice.
+Proof. apply no_panic. Qed.
+Lemma idle_after_done p s l : reachable p s -> step s l <> Panic PNonIdleAfterDone.
+Proof. apply no_panic. Qed.
